@@ -208,7 +208,7 @@ static void one_case(const vf::Args& a, uint64_t idx) {
   const fsr::Refs rf = fsr::build_refs<N>(m, F0, F1, gw);
   // the closed forms of the harness agree with each other (tau = F.S.F^T, T = R^T.tau.R)
   std::snprintf(api, sizeof api, "reference-selfcheck<%d>", int(N));
-  R.check(api, S, idx, h, rf.selfcheck, 4e-14L * (rf.smax / rf.smin) * (rf.smax / rf.smin), dump);
+  R.check(api, S, idx, h, rf.selfcheck, 1e-13L * (rf.smax / rf.smin) * (rf.smax / rf.smin), dump);
 
   const StensorN sig = mk_s(rf.s.sig);
   const L A = norm(F1), B = norm(inv(F1)), A0 = norm(F0), iA0 = norm(inv(F0));
@@ -294,18 +294,20 @@ static void one_case(const vf::Args& a, uint64_t idx) {
     const M3 sg = from_st(sig, N);          // the rounded Cauchy stress is the input
     const M3 iF = inv(F1);
     const L nsg = norm(sg);
+    // the library divides by det(F) evaluated in double: relative error eps |F|^3 / J (>= 1 by the AM-GM inequality)
+    const L dc = A * A * A / (5.196152422706632L * J);
     auto nm = [&](const char* f) { std::snprintf(api, sizeof api, "%s<%d>", f, int(N)); vf::set_case(api, S, idx); return api; };
     // PK2: S = J F^{-1}.sigma.F^{-T}
     const M3 Sref = scal(mul(mul(iF, sg), tr(iF)), J);
     const StensorN S2 = tfm::convertCauchyStressToSecondPiolaKirchhoffStress(sig, F1d);
     const L scS = A * A * A * A * nsg / J + J * B * B * nsg;
-    R.check(nm("convertCauchyStressToSecondPiolaKirchhoffStress"), S, idx, h, dist(from_st(S2, N), Sref), 128 * EPS * scS, dump);
+    R.check(nm("convertCauchyStressToSecondPiolaKirchhoffStress"), S, idx, h, dist(from_st(S2, N), Sref), 128 * EPS * scS * dc, dump);
     const StensorN sb = tfm::convertSecondPiolaKirchhoffStressToCauchyStress(S2, F1d);
     const M3 S2m = from_st(S2, N);
     const L scb = A * A * norm(S2m) / J;
     R.check(nm("convertSecondPiolaKirchhoffStressToCauchyStress"), S, idx, h,
-            dist(from_st(sb, N), scal(mul(mul(F1, S2m), tr(F1)), 1 / J)), 128 * EPS * scb, dump);
-    R.check(nm("PK2->Cauchy(Cauchy->PK2)"), S, idx, h, dist(from_st(sb, N), sg), 256 * EPS * (scb + A * A * scS / J), dump);
+            dist(from_st(sb, N), scal(mul(mul(F1, S2m), tr(F1)), 1 / J)), 128 * EPS * scb * dc, dump);
+    R.check(nm("PK2->Cauchy(Cauchy->PK2)"), S, idx, h, dist(from_st(sb, N), sg), 256 * EPS * (scb + A * A * scS / J) * dc, dump);
     // Kirchhoff stress: push forward of S
     const StensorN tl = tfm::push_forward(S2, F1d);
     R.check(nm("push_forward(S,F)=F.S.F^T"), S, idx, h, dist(from_st(tl, N), mul(mul(F1, S2m), tr(F1))), 128 * EPS * A * A * norm(S2m), dump);
@@ -319,10 +321,10 @@ static void one_case(const vf::Args& a, uint64_t idx) {
     const M3 Pm = from_t(P, N);
     const StensorN sp = tfm::convertFirstPiolaKirchhoffStressToCauchyStress(P, F1d);
     const L scp = A * norm(Pm) / J;
-    R.check(nm("convertFirstPiolaKirchhoffStressToCauchyStress"), S, idx, h, dist(from_st(sp, N), sym(scal(mul(Pm, tr(F1)), 1 / J))), 128 * EPS * scp, dump);
-    R.check(nm("PK1->Cauchy(Cauchy->PK1)"), S, idx, h, dist(from_st(sp, N), sg), 256 * EPS * (scp + A * (A * A * nsg + J * B * nsg) / J), dump);
+    R.check(nm("convertFirstPiolaKirchhoffStressToCauchyStress"), S, idx, h, dist(from_st(sp, N), sym(scal(mul(Pm, tr(F1)), 1 / J))), 128 * EPS * scp * dc, dump);
+    R.check(nm("PK1->Cauchy(Cauchy->PK1)"), S, idx, h, dist(from_st(sp, N), sg), 256 * EPS * (scp + A * (A * A * nsg + J * B * nsg) / J) * dc, dump);
     // S = F^{-1}.P
-    R.check(nm("PK2==F^-1.PK1"), S, idx, h, dist(S2m, mul(iF, Pm)), 256 * EPS * (scS + B * (A * A * nsg + J * B * nsg)), dump);
+    R.check(nm("PK2==F^-1.PK1"), S, idx, h, dist(S2m, mul(iF, Pm)), 256 * EPS * (scS * dc + B * (A * A * nsg + J * B * nsg)), dump);
     // corotational Cauchy stress: S = J U^{-1}.s.U^{-1} with the stretch tensor U (F = R.U)
     const M3 U = fsr::sqrtm(fsr::rcg(F1));
     const StensorN Ud = mk_s(U);
@@ -331,18 +333,19 @@ static void one_case(const vf::Args& a, uint64_t idx) {
     const StensorN sco = mk_s(mul(mul(tr(Rr), sg), Rr));
     const M3 scom = from_st(sco, N);
     const L JU = det(Um), nU = norm(Um), niU = norm(iU);
+    const L dcu = nU * nU * nU / (5.196152422706632L * JU);
     const StensorN Sc = tfm::convertCorotationnalCauchyStressToSecondPiolaKirchhoffStress(sco, Ud);
     const L scc = JU * niU * niU * norm(scom) + nU * nU * nU * nU * norm(scom) / JU;
     R.check(nm("convertCorotationnalCauchyStressToSecondPiolaKirchhoffStress"), S, idx, h,
-            dist(from_st(Sc, N), scal(mul(mul(iU, scom), iU), JU)), 128 * EPS * scc, dump);
+            dist(from_st(Sc, N), scal(mul(mul(iU, scom), iU), JU)), 128 * EPS * scc * dcu, dump);
     const M3 Scm = from_st(Sc, N);
     const StensorN sco2 = tfm::convertSecondPiolaKirchhoffStressToCorotationnalCauchyStress(Sc, Ud);
     R.check(nm("convertSecondPiolaKirchhoffStressToCorotationnalCauchyStress"), S, idx, h,
-            dist(from_st(sco2, N), scal(mul(mul(Um, Scm), Um), 1 / JU)), 128 * EPS * nU * nU * norm(Scm) / JU, dump);
+            dist(from_st(sco2, N), scal(mul(mul(Um, Scm), Um), 1 / JU)), 128 * EPS * nU * nU * norm(Scm) / JU * dcu, dump);
     R.check(nm("corotational->PK2->corotational"), S, idx, h, dist(from_st(sco2, N), scom),
-            256 * EPS * (nU * nU * norm(Scm) / JU + nU * nU * scc / JU), dump);
+            256 * EPS * (nU * nU * norm(Scm) / JU + nU * nU * scc / JU) * dcu, dump);
     // the corotational route and the direct one give the same PK2 stress (same sigma, F = R.U)
-    R.check(nm("PK2(corotational,U)==PK2(Cauchy,F)"), S, idx, h, dist(Scm, S2m), 256 * EPS * (scc + scS) * (rf.smax / rf.smin), dump);
+    R.check(nm("PK2(corotational,U)==PK2(Cauchy,F)"), S, idx, h, dist(Scm, S2m), 256 * EPS * (scc * dcu + scS * dc) * (rf.smax / rf.smin), dump);
   }
 }
 
